@@ -295,7 +295,7 @@ func genFunction(prog *ssa.Program, cs *Contracts, fn *ssa.Function, fc *FuncCon
 	// reported here; keyed writes are SMT obligations generated at the write
 	if fc.HasAssigns {
 		for _, w := range c.writeLog {
-			if w.heap != "" && w.key == nil && !c.frameAll {
+			if w.heap != "" && w.key == nil && !c.frameAll && !strings.HasPrefix(w.heap, "LOC.") {
 				msg := "whole heap " + w.heap + " may be written in a loop (written objects cannot be named at the loop head)"
 				dup := false
 				for _, e := range rep.FrameErrs {
